@@ -50,6 +50,7 @@ const (
 	dbDown // the peer closes its session
 	dbUp   // the peer (re-)establishes
 	dbWait // 11 s (statistics interval is 10 s)
+	dbFlip // the route is announced, replaced by another version and announced again as it was
 	dbOps
 )
 
@@ -84,7 +85,7 @@ func drawDB(t *rapid.T) dbCase {
 		c.NoAS4 = append(c.NoAS4, p.AS < 65536 && rapid.IntRange(0, 3).Draw(t, l+"noas4") == 0)
 		c.UpFirst = append(c.UpFirst, rapid.Bool().Draw(t, l+"first"))
 	}
-	c.Policy = rapid.SampledFrom([]int{1, 1, 2, 4, 5, 5}).Draw(t, "policy")
+	c.Policy = rapid.SampledFrom([]int{1, 1, 2, 2, 4, 5, 5}).Draw(t, "policy")
 	c.Stats = rapid.SampledFrom([]int{0, 0, 10}).Draw(t, "stats")
 	ops := func(l string, n int, all bool) []dbOp {
 		var out []dbOp
@@ -92,7 +93,7 @@ func drawDB(t *rapid.T) dbCase {
 			ol := fmt.Sprintf("%s%d", l, i)
 			kinds := []int{dbAnnounce, dbAnnounce, dbAnnounce, dbWithdraw}
 			if all {
-				kinds = append(kinds, dbAnnounce, dbDown, dbUp, dbUp, dbWait)
+				kinds = append(kinds, dbAnnounce, dbDown, dbUp, dbUp, dbWait, dbFlip, dbFlip)
 			}
 			o := dbOp{Kind: rapid.SampledFrom(kinds).Draw(t, ol+"k"), Peer: rapid.IntRange(0, np-1).Draw(t, ol+"peer")}
 			o.Route = c19dRoute{Src: o.Peer, V6: rapid.IntRange(0, 2).Draw(t, ol+"v6") == 0, Prefix: rapid.IntRange(0, 3).Draw(t, ol+"p"),
@@ -315,6 +316,27 @@ func runDB(t *testing.T) func(c dbCase, st *verifkit.Stats) *verifkit.Failure {
 						logf("peer %d withdraws v6=%v prefix %d id %d", o.Peer, o.Route.V6, o.Route.Prefix, id)
 					}
 					_ = sess[o.Peer].send(m, txOpt(o.Peer))
+				case dbFlip:
+					if cur[o.Peer] == nil {
+						return nil
+					}
+					p := &c.Peers[o.Peer]
+					id := uint32(0)
+					if p.AddPathRecv {
+						id = uint32(o.Route.PathID)
+					}
+					for step, variant := range []int{o.Route.Variant, (o.Route.Variant + 1) % 4, o.Route.Variant} {
+						r := o.Route
+						r.Variant = variant
+						// same attributes for the same version: the serial (a community) is that of the version
+						m := rsAnnounce(p, r.V6, r.Prefix, id, c19dAttrs(p, r, uint32(0xf000+variant)))
+						if c.NoAS4[o.Peer] {
+							m = rs2ByteAS(m)
+						}
+						logf("peer %d announces (flip %d) v6=%v prefix %d id %d variant %d", o.Peer, step, r.V6, r.Prefix, id, variant)
+						_ = sess[o.Peer].send(m, txOpt(o.Peer))
+						n.settle()
+					}
 				case dbDown:
 					if cur[o.Peer] == nil {
 						return nil
